@@ -206,7 +206,7 @@ type c09Part struct {
 	MaxBatch int
 	SortKeys []string
 	// Quick: how the partition takes part in the quick tier ("" = thorough only):
-	//   full      crash-free + job-kill at every storage mutation of the first hourly job + node-crash at one point per file step kind
+	//   full      crash-free + job-kill at every storage mutation of the first hourly job + node-crash and job-error at one point per file step kind
 	//   storage   crash-free + job-kill at every storage mutation of the first hourly job (no phase kills)
 	//   kinds     crash-free + job-kill at one fault point per distinct file step kind of the first hourly job
 	//   crashfree crash-free only
@@ -482,10 +482,11 @@ func (p *c09Part) dedup() bool {
 func (p *c09Part) tagsDiffer() bool { return p.tagShape() != "" }
 
 // tagShape classifies HOW the arc:tags declarations of the files (in listing order) disagree; "" = they agree.
-//   with-untagged  some file has no arc:tags while another has
-//   grow           the newest file declares the union (tags were only ever added)
-//   disjoint       two files declare sets of which neither contains the other
-//   shrink         otherwise: the sets are nested and the newest file declares fewer tags than an older one
+//
+//	with-untagged  some file has no arc:tags while another has
+//	grow           the newest file declares the union (tags were only ever added)
+//	disjoint       two files declare sets of which neither contains the other
+//	shrink         otherwise: the sets are nested and the newest file declares fewer tags than an older one
 func (p *c09Part) tagShape() string {
 	union := p.tagUnion()
 	if len(union) == 0 {
@@ -756,11 +757,11 @@ type c09Scn struct {
 
 type c09Rec struct {
 	CFSigs map[string]string `json:"crash_free_violations"`
-	Part   string      `json:"part"`
-	Jobs   []c09JobLog `json:"jobs"`
-	Inproc []vos.Op    `json:"inproc"`
-	InJob  string      `json:"injob"`
-	InN    int         `json:"in_n"`
+	Part   string            `json:"part"`
+	Jobs   []c09JobLog       `json:"jobs"`
+	Inproc []vos.Op          `json:"inproc"`
+	InJob  string            `json:"injob"`
+	InN    int               `json:"in_n"`
 }
 
 type c09Worker struct {
@@ -1476,7 +1477,7 @@ func c09BuildScenarios(run *ev.Run, parts []c09Part, scratch string) []c09Scn {
 		quickWants := func(md string, k int, lab string, torn bool, kd map[int]bool) bool {
 			switch p.Quick {
 			case "full":
-				return (md == "job-kill" && !c09Phase(lab)) || (md == "node-crash" && kd[k] && !torn)
+				return (md == "job-kill" && !c09Phase(lab)) || ((md == "node-crash" || md == "job-error") && kd[k] && !torn)
 			case "storage":
 				return md == "job-kill" && !c09Phase(lab)
 			case "kinds":
@@ -1501,7 +1502,7 @@ func c09BuildScenarios(run *ev.Run, parts []c09Part, scratch string) []c09Scn {
 				modes := []string{"job-kill"}
 				if ti == 0 {
 					modes = []string{"job-kill", "node-crash"}
-					if allModes {
+					if allModes || p.Quick == "full" {
 						modes = append(modes, "job-error")
 					}
 				}
@@ -1620,7 +1621,7 @@ func c09Report(run *ev.Run, parts []c09Part, scns []c09Scn, ctr map[string]int64
 			byPlan[p.Quick] = append(byPlan[p.Quick], p.Name)
 		}
 		pl := func(k string) string { return strings.Join(byPlan[k], ", ") }
-		rule += "QUICK space (complete, not sampled): target = the first hourly job; crash-free run of all " + strconv.Itoa(len(parts)) + " quick partitions; plan 'full' (" + pl("full") + ": representative of partitions without dedup metadata, splittable batch of 4): job-kill x S and node-crash x K; plan 'storage' (" + pl("storage") + ": representative of the class 'files of one batch disagree on arc:tags', splittable batch of 4): job-kill x S; plan 'kinds' (" + pl("kinds") + ": the other shapes of that class): job-kill x K; plan 'crashfree' (" + pl("crashfree") + "): crash-free only. job-error and inproc-error, the phase kills, node-crash at every call, further target jobs and the other partitions are left to the thorough tier. "
+		rule += "QUICK space (complete, not sampled): target = the first hourly job; crash-free run of all " + strconv.Itoa(len(parts)) + " quick partitions; plan 'full' (" + pl("full") + ": representative of partitions without dedup metadata, splittable batch of 4): job-kill x S, node-crash x K and job-error x K; plan 'storage' (" + pl("storage") + ": representative of the class 'files of one batch disagree on arc:tags', splittable batch of 4): job-kill x S; plan 'kinds' (" + pl("kinds") + ": the other shapes of that class): job-kill x K; plan 'crashfree' (" + pl("crashfree") + "): crash-free only. inproc-error, the phase kills, node-crash and job-error at every call, further target jobs and the other partitions are left to the thorough tier. "
 	} else {
 		rule += "THOROUGH space: job-kill, node-crash and job-error x E on the first hourly job of every partition, inproc-error x every call of an in-process Job.Run of that batch, and for 5 partitions also the second hourly job and the first daily job as targets (job-kill x E). "
 	}
